@@ -10,14 +10,14 @@ from sx.runner import Harness
 ID = "C34"
 MANIFEST = {
     "technique": "bounded model checking with solver-decided choice (SX engine): the definitions of an environment (variables in every bash quoting style, arrays, functions whose bodies contain braces in quotes, parameter expansions with quoted closing braces, here-documents, case arms, comments, arithmetic, nested functions), their order, the filter patterns and the blacklist/whitelist modes are symbolic selectors; the engine forks over every feasible combination; /bin/bash itself writes the dump (declare -p / declare -f after sourcing the definitions), the real filter_env.main_run filters it, and /bin/bash sources the result: the definitions it then reports are compared with the original ones minus the filtered names",
-    "level_text": "Bounded model checking, exhaustive within the bound (environments of 2 variables from 11 and 2 functions from 10 in both orders, 12 combinations of variable / function filters (single names, several names incl. one that is a prefix of another definition, regular expressions) in blacklist and whitelist mode): sourcing the filtered dump in bash defines exactly the non-filtered variables and functions (exactly the filtered ones in whitelist mode) with the same values and the same function bodies as bash itself reports for the unfiltered dump, and the filtered text sources without a syntax error. Selector-only; bash is the oracle.",
+    "level_text": "Bounded model checking, exhaustive within the bound (environments of 2 variables from 12 and 2 functions from 12 in both orders, 12 combinations of variable / function filters (single names, several names incl. one that is a prefix of another definition, regular expressions) in blacklist and whitelist mode): sourcing the filtered dump in bash defines exactly the non-filtered variables and functions (exactly the filtered ones in whitelist mode) with the same values and the same function bodies as bash itself reports for the unfiltered dump, and the filtered text sources without a syntax error. Selector-only; bash is the oracle.",
     "level_note": "selector-only harness (labelled as such). Each path runs /bin/bash three times (dump, reference report, report after filtering).",
 }
 META = {
     "modules": ["pkgcore.ebuild.filter_env"],
     "functions": ["filter_env.main_run", "filter_env.run", "filter_env.process_scope", "filter_env.is_function/is_envvar", "filter_env.walk_command_complex/walk_dollar_expansion/walk_here_statement/walk_statement_pound", "filter_env.build_regex_string"],
     "stubs": [],
-    "bounds": {"quick": "9 first-definition pairs, second definitions from every third menu entry", "thorough": "all 110 first-definition pairs, second definitions from every second menu entry"},
+    "bounds": {"quick": "9 first-definition pairs, second definitions from every third menu entry", "thorough": "all 144 first-definition pairs, second definitions from every second menu entry"},
     "outside": ["environments bash did not write itself (hand-written snippets are covered by the pinned tests)", "callbacks (global_envvar_callback / func_callback)", "more than 4 definitions per dump"],
     "assumptions": ["/bin/bash is the reference for what a dump defines"],
     "selector_only": True,
@@ -26,13 +26,14 @@ META = {
 VARS = [
     ("PLAIN", "PLAIN=word"), ("DQ", 'DQ="two words \\" } and $ \\$x"'), ("SQ", "SQ='single } { \" # quote'"), ("ANSI", "ANSI=$'tab\\there } \\' quote'"), ("ARR", 'ARR=(one "two } three" $\'fo\\nur\')'),
     ("EMPTY", "EMPTY="), ("EXP", 'export EXP="exported # not a comment"'), ("MULTI", 'MULTI="line one\nline } two\n# three"'), ("FUNCLIKE", 'FUNCLIKE="f() { echo; }"'),
-    ("PLAIN_EXT", "PLAIN_EXT=longer-name"), ("ANSIBS", "ANSIBS=$'first\\nC:\\\\dir\\\\'"),
+    ("PLAIN_EXT", "PLAIN_EXT=longer-name"), ("APOS", 'APOS="it\'s a } brace"'), ("ANSIBS", "ANSIBS=$'first\\nC:\\\\dir\\\\'"),
 ]
 FUNCS = [
     ("f_plain", "f_plain() { echo hi; }"), ("f_brace", "f_brace() { echo \"}\"; echo '{'; }"), ("f_param", 'f_param() { local x=${1:-"}"}; echo "${x#"}"}"; }'),
     ("f_here", "f_here() {\ncat <<EOF\n}\nnot the end {\nEOF\n}"), ("f_case", 'f_case() { case $1 in a) echo "}";; b|c) : ;; *) echo \')\';; esac; }'),
     ("f_comment", "f_comment() {\n# a } in a comment\necho done # trailing }\n}"), ("f_arith", "f_arith() { local i; for ((i=0; i<3; i++)); do (( i > 1 )) && echo $(( i << 1 )); done; }"),
     ("f_nested", "f_nested() { inner() { echo '}'; }; inner; }"), ("f_subsh", 'f_subsh() { ( echo "$(echo "}")" ); echo `echo {`; }'), ("f_plain_x", "f_plain_x() { echo longer; }"),
+    ("f_apos", 'f_apos() { echo "it\'s } here"; echo \'say "}"\'; }'), ("f_hereq", "f_hereq() {\ncat <<'EOF'\n} $x `y`\nEOF\n}"),
 ]
 VFILTERS = [None, ["PLAIN"], ["DQ", "ARR"], ["M.*"], ["A.*"], ["NOPE"], ["PLAIN", "ANSIBS", "DQ"]]  # patterns are anchored regular expressions
 FFILTERS = [None, ["f_plain"], ["f_brace", "f_here"], ["f_.a.*"], ["f_nested"], ["nope"], ["f_plain", "f_case"]]
